@@ -100,7 +100,8 @@ PotentialClauses(post, rm, d, o, q) ==
                           LET r == q.pot[j] IN
                           RamComplete(A, rm, r.l) =>
                             (r.exc = "" /\ r.p = PotentialPrefix(A, rm, d, r.l))>>,
-    <<"bind.potential.nowrite", q.wrote = 0>>
+    <<"bind.potential.nowrite", q.wrote = 0>>,
+    <<"bind.match", \A j \in 1..Len(q.match) : Match(q.match[j].rule, q.match[j].l) = q.match[j].n>>
   >>)
 
 (***************************************************************************)
